@@ -138,5 +138,5 @@ Print Assumptions C06_no_mixture.
    caller's ordering unchanged to exactly one atomic access; the checker demands exactly that of the
    real library, which is observed through third-party AtomicInteger implementations *)
 Theorem C06order_model_ok : forall os ol, ok_C06order os ol (run_C06order os ol) = true.
-Proof. intros os ol. unfold ok_C06order, run_C06order. rewrite !N.eqb_refl. reflexivity. Qed.
+Proof. exact C06order_model_ok_lemma. Qed.
 Print Assumptions C06order_model_ok.
